@@ -3,6 +3,8 @@ package main
 import (
 	"encoding/json"
 	"fmt"
+	"math"
+	"math/big"
 	"strings"
 
 	clip "github.com/bolom009/go-clipper2"
@@ -146,7 +148,15 @@ func emitC01(e *Emitter, idx string, s, c clip.Paths64, ct clip.ClipType, fr cli
 func genLine(spec string, r2 string, sets []clip.Paths64, bandC, bandO clip.Paths64) (string, int) {
 	ys := slabYs(allEdges(sets...))
 	var sb strings.Builder
-	fmt.Fprintf(&sb, "gen %s 3 fuel=5 %s %d", spec, r2, len(sets))
+	// the bounding-box prefilter margin must not be smaller than the band radius
+	rm := int64(3)
+	if rr, ok := new(big.Rat).SetString(r2); ok {
+		f, _ := rr.Float64()
+		if m := int64(math.Ceil(math.Sqrt(f))) + 1; m > rm {
+			rm = m
+		}
+	}
+	fmt.Fprintf(&sb, "gen %s %d fuel=5 %s %d", spec, rm, r2, len(sets))
 	for _, s := range sets {
 		encPaths(&sb, s)
 	}
